@@ -531,6 +531,16 @@ class UnitGen:
             g.rewrites.append(dict(fn=fid, id='NAMES', frm=', '.join(sorted(rename)), to=', '.join(rename[k] for k in sorted(rename))))
         text = src
         rws = []
+        if fd.mode != 'verify':
+            # only the signature is emitted: signature-level declared rewrites (type alias expansion, dyn auto traits) still apply
+            for sec in fd.sections:
+                if sec.kind == 'rewrite' and sec.args[0] in ('RW12', 'RW14'):
+                    rid, pat, rep = sec.args
+                    m = re.search(pat, text, re.S)
+                    if m:
+                        new_ = m.expand(rep)
+                        rws.append((rid, m.group(0), new_))
+                        text = text[:m.start()] + new_ + text[m.end():]
         if fd.mode == 'verify':
             text, rws = self.auto_rewrites(text)
             if fd.opts.get('fmt') == '1':
@@ -557,6 +567,7 @@ class UnitGen:
                     rws.append(('RW18b', m.group(0), new))
                     return new
                 text = self.masked_sub(r'=\s*(?P<recv>[A-Za-z_]\w*)\s*\.\s*split\((?P<args>[^()]*)\);', rw18b, text)
+            if fd.opts.get('split') == '1' or fd.opts.get('forvec') == '1':
                 # RW19: for <x> in <vec> {  ->  for <x> in vit: <vec> {   (names Verus' ghost iterator; no executable change)
                 def rw19(m):
                     new = 'for %s in vit: %s' % (m.group('x'), m.group('v'))
